@@ -39,21 +39,23 @@ def _cleanup():
 atexit.register(_cleanup)
 
 
-def build(variant, san="native", extra_defs=(), extra_srcs=(), name=None):
+def build(variant, san="native", extra_defs=(), extra_srcs=(), name=None, lib_defs=()):
     """variant: 'asm' (Unix .S + Windows-GNU .S via ms_abi trampolines) or 'int' (C intrinsics).
     san: native | asan | tsan. Returns path of the executable. Each check process builds into
     its own directory (removed at exit) so that concurrent checks never collide; within one
     process a variant is built once."""
-    key = (variant, san, tuple(extra_defs), tuple(extra_srcs), name)
+    key = (variant, san, tuple(extra_defs), tuple(extra_srcs), name, tuple(lib_defs))
     with _lock:
         if key in _cache:
             return _cache[key]
-        exe = _build(variant, san, extra_defs, extra_srcs, name)
+        exe = _build(variant, san, extra_defs, extra_srcs, name, lib_defs)
         _cache[key] = exe
         return exe
 
 
-def _build(variant, san, extra_defs, extra_srcs, name):
+def _build(variant, san, extra_defs, extra_srcs, name, lib_defs=()):
+    """lib_defs: preprocessor configuration of the library itself (BLAKE3_NO_SSE41 ...), applied to
+    the files of /repo/c only; the driver keeps seeing every prototype."""
     name = name or "cdrv_%s_%s" % (variant, san)
     out = os.path.join(BUILD, "%s-%d" % (name, os.getpid()))
     if os.path.isdir(out):
@@ -69,6 +71,9 @@ def _build(variant, san, extra_defs, extra_srcs, name):
     elif san == "tsan":
         cc = "clang"
         cflags = ["-O1", "-g", "-fsanitize=thread", "-fno-omit-frame-pointer"]
+    elif san == "clangO0":
+        cc = "clang"
+        cflags = ["-O0", "-g"]
     else:
         raise core.HarnessError("bad sanitizer " + san)
     defs = ["-DBLAKE3_TESTING", "-I", C] + list(extra_defs)
@@ -80,8 +85,9 @@ def _build(variant, san, extra_defs, extra_srcs, name):
         jobs.append(([cc] + cflags + defs + flags + ["-c", src, "-o", o], o))
         return o
 
+    lib_defs = list(lib_defs)
     for f in CORE_C:
-        objs.append(obj(os.path.join(C, f), []))
+        objs.append(obj(os.path.join(C, f), lib_defs))
     if variant == "asm":
         defs += ["-DCDRV_HAVE_TRAMP", "-DCDRV_WINGNU"]
         for f in UNIX_ASM:
@@ -89,7 +95,7 @@ def _build(variant, san, extra_defs, extra_srcs, name):
         objs.append(obj(os.path.join(CDRV, "tramp.S"), []))
     else:
         for f, fl in INTRIN:
-            objs.append(obj(os.path.join(C, f), fl))
+            objs.append(obj(os.path.join(C, f), fl + lib_defs))
     for s in extra_srcs:
         objs.append(obj(s, []))
     objs.append(obj(os.path.join(CDRV, "cdrv.c"), []))
